@@ -425,7 +425,7 @@ def main(argv):
             os.makedirs(od)
             try:
                 rc, out, dt = run_harness(pid, od, seed, n, tier, replay=path,
-                                          timeout=cfg.get("timeout", {}).get(tier, 1800))
+                                          timeout=cfg.get("timeout", {}).get(tier, 900 if tier == "quick" else 4 * 3600))
             except subprocess.TimeoutExpired:
                 rc, out, dt = 124, "harness timed out", 0
             log.append((f"hv {pid} {kind} seed={seed} n={n}", rc, dt, out[-3000:]))
